@@ -2,13 +2,16 @@
 // every behaviour of the recursive call.  (A9 as seen by callers in U7/U9 is this same contract.)
 pub uninterp spec fn enc(value: Value, schema: Schema, names: Names, ns: NamespaceRef) -> Seq<u8>;
 
+/// the call appended exactly `x` and (C13) reported exactly that many bytes
+pub open spec fn wrote(before: Seq<u8>, after: Seq<u8>, n: usize, x: Seq<u8>) -> bool { after =~= before + x && n as int == x.len() }
+
 pub open spec fn grew(before: Seq<u8>, after: Seq<u8>) -> bool { exists|ext: Seq<u8>| #![auto] after == before + ext }
 
 #[verifier::external_body]
 pub fn encode_internal(value: &Value, schema: &Schema, names: &Names, enclosing_namespace: NamespaceRef, writer: &mut Sink) -> (r: AvroResult<usize>)
     ensures
         match r {
-            Ok(_) => final(writer)@ == old(writer)@ + enc(*value, *schema, *names, enclosing_namespace),
+            Ok(n) => wrote(old(writer)@, final(writer)@, n, enc(*value, *schema, *names, enclosing_namespace)),
             Err(_) => true,
         },
 { unimplemented!() }
